@@ -113,6 +113,7 @@ let bopt tok = if tok = "~" then None else Some (bytes_of_hex tok)
 let show_err = function
   | EClosed -> "Closed" | EReadOnly -> "ReadOnly" | EWriteOnly -> "WriteOnly" | EEmptyKey -> "EmptyKey"
   | EConflict -> "Conflict" | ENoSavepoint -> "NoSavepoint" | ENoTxn -> "NoTxn" | EUnsupported -> "Unsupported"
+  | ENoVersioning -> "NoVersioning"
 let show_resp = function
   | ROk -> "ok"
   | RErr e -> "err:" ^ show_err e
@@ -121,12 +122,31 @@ let show_resp = function
   | RCur None -> "cur:invalid"
   | RCur (Some (k, v)) -> Printf.sprintf "cur:%s=%s" (hex_of_bytes k) (hex_of_bytes v)
   | RList l -> "list:" ^ String.concat "," (List.map (fun (k, v) -> hex_of_bytes k ^ "=" ^ hex_of_bytes v) l)
+  | RHist l -> "hist:" ^ String.concat "," (List.map (fun (k, v) ->
+      let tomb = (match v.v_kind with KDel | KSoftDel -> true | _ -> false) in
+      Printf.sprintf "%s@%d%s=%s" (hex_of_bytes k) (int_of_n v.v_ts) (if tomb then "!" else "") (if tomb then "-" else hex_of_bytes v.v_val)) l)
 let ni s = nat_of_int (int_of_string s)
 let e2_cmd (args : string list) : string =
   let run c = let (s, r) = step !e2_state c in e2_state := s; show_resp r in
   match args with
   | ["new"] -> e2_state := m0; "ok"
-  | ["open"; _] -> "ok"
+  | ["open"; o] ->
+    let ver = List.mem "ver=1" (String.split_on_char ',' o) in
+    run (SetVersioning ver)
+  | ["clock"; t] -> run (SetClock (n_of_int (int_of_string t)))
+  | ["delat"; id; k; ts] -> run (Write (ni id, KDel, bytes_of_hex k, None, n_of_int (int_of_string ts)))
+  | ["sdelat"; id; k; ts] -> run (Write (ni id, KSoftDel, bytes_of_hex k, None, n_of_int (int_of_string ts)))
+  | ["getat"; id; k; ts] -> run (GetAt (ni id, bytes_of_hex k, n_of_int (int_of_string ts)))
+  | ["history"; id; lo; hi; tomb; tsr; limit; dir] ->
+    let r = if tsr = "~" then None else (match String.split_on_char '-' tsr with
+        | [a; b] -> Some (n_of_int (int_of_string a), n_of_int (int_of_string b)) | _ -> failwith "tsr") in
+    let lim = if limit = "~" then None else Some (ni limit) in
+    run (History (ni id, Some (bytes_of_hex lo), Some (bytes_of_hex hi), tomb = "1", r, lim, dir = "b"))
+  | ["history_tsfirst"; id; lo; hi; tomb; tsr; limit; dir] ->
+    let r = if tsr = "~" then None else (match String.split_on_char '-' tsr with
+        | [a; b] -> Some (n_of_int (int_of_string a), n_of_int (int_of_string b)) | _ -> failwith "tsr") in
+    let lim = if limit = "~" then None else Some (ni limit) in
+    run (HistoryTsFirst (ni id, Some (bytes_of_hex lo), Some (bytes_of_hex hi), tomb = "1", r, lim, dir = "b"))
   | ["close"] -> run Reopen
   | ["reopen"] -> run Reopen
   | ["begin"; id; m] -> run (Begin (ni id, (match m with "ro" -> RO | "wo" -> WO | _ -> RW)))
